@@ -845,6 +845,9 @@ func (serverEngine) run(t *testing.T, batch string, tape *rt.Tape, runIdx uint64
 		if n := obs.C2S.Coalesced + obs.S2C.Coalesced; n > 0 {
 			rec.Faults["coalesce"] = n
 		}
+		if n := obs.C2S.EOFsWithData + obs.S2C.EOFsWithData; n > 0 {
+			rec.Faults["eof-with-data"] = n
+		}
 	}
 	for _, b := range plan.Behs {
 		if b.SleepMs > 0 {
